@@ -79,12 +79,13 @@ def gen_single(rng, t, inp, vanishing=False):
     prefix = rng.choice(["SUPER_", "SUPER_", "CHR", "RL_"])
     pcs = list(pieces)
     design = []
-    nchr = rng.randint(0, max(0, len(pcs) // 2)) if rng.random() < 0.9 else min(len(pcs), rng.randint(10, 14))
+    many = rng.random() < 0.08
+    nchr = rng.randint(0, max(0, len(pcs) // 2)) if not many else max(0, len(pcs) - 2)
     used_names = set()
     for c in range(nchr):
         if not pcs:
             break
-        k = rng.randint(1, min(4, len(pcs)))
+        k = rng.randint(1, min(4, len(pcs))) if not many else 1
         grp, pcs = pcs[:k], pcs[k:]
         nametag = None
         if rng.random() < 0.25:
